@@ -944,3 +944,40 @@ def c12(tier):
     return explore_check("C12", tier, tasks, S_RULE + "; fault alternatives cost 1 from a separate fault budget", COMMON_ASSUMPTIONS + [
         "a refused sbatch is a clean failure (the scheduler did not accept the job); a killed node is gone from squeue at once",
         "a job whose process finished but whose row was not yet appended when the node died counts as missing"], dict(bounds=bounds))
+
+
+# ------------------------------------------------------------------------------ C11
+def c11_tasks(tier):
+    tasks = []
+    graphs = ["chain3", "indep3"] if tier == "quick" else ["chain3", "indep3", "fork", "join", "twocomp"]
+    params = [("sz1-mx2", dict(size=1, max_nodes=2))] if tier == "quick" else [("sz1-mx2", dict(size=1, max_nodes=2)), ("sz2-mxN", dict(size=2, max_nodes=None))]
+    for g in graphs:
+        bb = S.REP[g]
+        n = len(bb)
+        for tag, gkw in params:
+            for lockmode in ("never_break", "break_stale"):
+                actors = [dict(name="rec", argv=["jade", "try-submit-jobs", "{out}"], host="login2", guard="idle_incomplete", repeat=2),
+                          dict(name="recsame", argv=["jade", "try-submit-jobs", "{out}"], host="login1", guard="idle_incomplete", after="rec")]
+                sc = mk_scen(bb, gkw, actors=actors, level=2, lockmode=lockmode)
+                for victims in (["login"], ["n"], ["rec"]):
+                    t = dict(id=f"c11-{g}-{tag}-{lockmode}-{victims[0]}", scen=sc, oracles=["Obs", "C11"],
+                             budget=(0, 1) if tier == "quick" else (0, 1), fault=dict(plan="c11", victims=victims),
+                             cls=f"fault-in-round+{lockmode}")
+                    tasks.append(t)
+                if tier == "thorough":
+                    tasks += shard([dict(id=f"c11-{g}-{tag}-{lockmode}-p1", scen=sc, oracles=["Obs", "C11"], budget=(1, 1),
+                                         fault=dict(plan="c11", victims=["login", "n"], kinds=["kill"]), cls=f"fault-in-round+{lockmode}")], 8)
+    return tasks
+
+
+@check("C11")
+def c11(tier):
+    tasks = c11_tasks(tier)
+    bounds = ("REP graphs x batchings at sync level L2 (every lock operation, scheduler command, and every open/commit/rename/remove of the status and results files is a fault site) under both lock-library behaviours; "
+              "victims: the login round, every node's try-submit-jobs round, the user's recovery rounds; one fault per history out of {kill at any site, sbatch failing once / on all attempts, squeue failing on all attempts, "
+              "lock-acquisition timeout, EDQUOT at any write-open or commit (after truncation)}; continuation = remaining nodes + two try-submit-jobs from another host + one from the login host"
+              + ("; thorough adds 1 preemption of the survivors with kill faults" if tier == "thorough" else ""))
+    return explore_check("C11", tier, tasks, S_RULE + "; fault alternatives cost 1 from a separate fault budget", COMMON_ASSUMPTIONS[:1] + [
+        "sync level L2: inside critical sections every file operation is a scheduling/fault point; buffered-writer model (data reaches a file at close)",
+        "a failed sbatch is a clean failure; lost acknowledgements and torn single writes are outside the fault model",
+        "lock timeouts other than the injected one fire only at global quiescence"], dict(bounds=bounds))
